@@ -6,6 +6,14 @@ from .c07_plan import PROFILE, plans, ASSUME, enum_plans
 def run(tier, seed):
     mc, sim = plans(tier)
     ck = nc.run_property("C07", tier, seed, "Inv07", PROFILE, mc, sim, 1500 if tier == "thorough" else 240, ASSUME, enum_plan=enum_plans(tier))
+    # the free grain: the clauses of Mon_C07 do not depend on step boundaries, so they are also checked under every
+    # interleaving of single thread steps (model) and on free-grain behaviours executed on the node
+    th = tier == "thorough"
+    nc.free_phase(ck, "C07", [
+        dict(cfg="A", depth=10 if th else 8, maxtime=1, alpha=["cerok", "req1", "dwr"], faults=False, maxconn=1, invs=["Inv07"],
+             sim=300 if th else 60, sim_depth=22, sim_alpha=["cerok", "req1", "req2", "dwr", "dpr", "ureq"], sim_maxconn=3),
+        dict(cfg="HOLD2", depth=9 if th else 7, maxtime=1, alpha=["cerok", "req1"], faults=True, maxconn=2, invs=["Inv07"],
+             sim=300 if th else 60, sim_depth=22, sim_alpha=["cerok", "req1", "req2", "dwr"], sim_maxconn=3)], seed, monitors=("C07",))
     return ck.finish()
 
 
